@@ -232,6 +232,35 @@ def named_prefixes(rep: Report) -> None:
     rep.analysed["named_prefixes"] = len(seen)
 
 
+def ratio_keeps_prefix(rep: Report, prog: Program, rid: str = "R11.8") -> None:
+    """R11.8: `Unit.as_ratio()` splits a unit into numerator and denominator for the `/` formats; the pair has to mean the unit.
+    Necessary condition: the function reads the unit's prefix (or uses the unit as a whole).  A split computed from the factors
+    alone gives Kilo * Meter / Hour and Meter / Hour the same pair - 5 km/h prints as '5 m/h'."""
+    q = "Unit.as_ratio"
+    if q not in prog.functions:
+        rep.ok(rid, q, note="no as_ratio")
+        return
+    fi = prog.func(q)
+    me = fi.params()[0]
+    hosts = [fi.node]
+    for c in ast.walk(fi.node):
+        # a helper that is handed the unit itself
+        if isinstance(c, ast.Call) and any(isinstance(a, ast.Name) and a.id == me for a in c.args):
+            hosts.append(c)
+    reads_prefix = False
+    whole = False
+    for n in ast.walk(fi.node):
+        if isinstance(n, ast.Attribute) and isinstance(n.value, ast.Name) and n.value.id == me and n.attr in ("prefix", "quantify"):
+            reads_prefix = True
+        if isinstance(n, ast.Name) and n.id == me and isinstance(n.ctx, ast.Load):
+            par = getattr(n, "_parent", None)
+            if not isinstance(par, ast.Attribute):
+                whole = True
+    rep.check(rid, q, reads_prefix or whole,
+              "Unit.as_ratio() never reads the unit's prefix: the numerator / denominator pair is computed from the factors alone, so a prefixed unit and "
+              "its unprefixed form split into the same pair - 5 km/h is printed (and parsed back) as 5 m/h", fi.where())
+
+
 def text_means_unit(rep: Report, prog: Program, rid: str = "R11.6") -> None:
     """R11.6: the pieces every renderer prints - a leading magnitude and one (prefix, symbol, exponent) term per factor -
     denote the unit: ln m + sum e_i ln p_i = ln P (sa/termwalk.py), and each caller folds the magnitude in by
@@ -332,6 +361,8 @@ def run(rep: Report) -> None:
     check_equate(rep, prog, resolver)
     value_preservation(rep, prog, resolver)
     text_means_unit(rep, prog)
+    rep.rule("R11.8", "Unit.as_ratio() depends on the unit's prefix (the numerator / denominator pair means the unit)", floor=1)
+    ratio_keeps_prefix(rep, prog)
     plan_prefix_step(rep, prog)
     prefix_arithmetic_layering(rep, prog, resolver)
     named_prefixes(rep)
